@@ -129,7 +129,8 @@ func TestC01_UnaryPostfix(t *testing.T) {
 	data := (&spec.Data{}).Add("n", spec.IntOf(spec.TInt32, 6)).Add("f", spec.Float64(2.5)).Add("p", spec.Bool(true)).Add("q", spec.Bool(false)).
 		Add("arr", spec.Slice(spec.T(spec.TInt), spec.IntOf(spec.TInt, 4), spec.IntOf(spec.TInt, 9))).
 		Add("o", spec.Map(spec.T(spec.TAny), []string{"k", "inner"}, []*spec.Value{spec.Any(spec.IntOf(spec.TInt, 3)), spec.Any(spec.Map(spec.T(spec.TInt), []string{"z"}, []*spec.Value{spec.IntOf(spec.TInt, 8)}))})).
-		Add("s", spec.String("abc"))
+		Add("s", spec.String("abc")).Add("es", spec.String("")).
+		Add("em", spec.Map(spec.T(spec.TInt), []string{"", "a"}, []*spec.Value{spec.IntOf(spec.TInt, 41), spec.IntOf(spec.TInt, 1)}))
 	model, _ := data.Model()
 	var trees []*tw.Expr
 	n, f := func() *tw.Expr { return tw.Var("n") }, func() *tw.Expr { return tw.Var("f") }
@@ -179,6 +180,10 @@ func TestC01_UnaryPostfix(t *testing.T) {
 		tw.Tern(tw.Var("q"), intLit(1), tw.Tern(tw.Var("p"), tw.Tern(tw.Var("q"), intLit(5), intLit(6)), intLit(4))),
 		tw.Un(tw.ENeg, tw.Tern(tw.Var("p"), intLit(1), intLit(2))), tw.Un(tw.EDec, tw.Tern(tw.Var("q"), intLit(1), intLit(2))),
 		tw.Index(tw.Tern(tw.Var("p"), tw.Var("arr"), tw.Arr()), intLit(1)), tw.Dot(tw.Tern(tw.Var("p"), tw.Var("o"), tw.Obj(nil, nil)), "k"),
+		// an index is any expression, and a key any string - the empty one included
+		tw.Bin("+", tw.Index(tw.Var("em"), tw.Str("")), intLit(1)), tw.Bin("*", tw.Index(tw.Var("em"), tw.Var("es")), intLit(2)), tw.Index(tw.Var("em"), tw.Bin("+", tw.Var("es"), tw.Str(""))),
+		tw.Un(tw.ENeg, tw.Index(tw.Var("em"), tw.Call(tw.Var("s"), "trim", tw.Str("abc")))), tw.Bin("-", tw.Index(tw.Var("em"), tw.Tern(tw.Var("q"), tw.Str("a"), tw.Str(""))), tw.Index(tw.Var("em"), tw.Str("a"))),
+		tw.Index(tw.Var("em"), tw.Call(tw.Var("s"), "truncate", intLit(0), tw.Str(""))), tw.Index(tw.Var("arr"), tw.Bin("-", tw.Index(tw.Var("em"), tw.Str("")), intLit(40))),
 	}
 	trees = append(trees, chain...)
 	for i, tree := range trees {
